@@ -73,6 +73,9 @@ def check_history(job):
                 break
         fails.append({'kind': kind, 'detail': detail, 'class': cls, 'history': labels[:step + 1]})
 
+    # expected child lists of every table: what was added and not deleted, in order, by identity
+    exp_cols = {id(t_): list(t_.columns) for t_ in it.slots if isinstance(t_, Table)}
+    exp_idxs = {id(t_): list(t_.indexes) for t_ in it.slots if isinstance(t_, Table)}
     step = -1
     hist_ops = [op for op in ops[npre:] if op.code in (30, 40, 50, 51, 52, 53, 54, 60)]
     for step, op in enumerate(hist_ops):
@@ -213,7 +216,32 @@ def check_history(job):
         for x in removed:
             if x.database is not None and not any(x is y for k in ('tables', 'refs', 'enums', 'groups') for y in spec[k]):
                 fail('removed object still points to a database', repr(x), cls)
-        # table level
+        # table level: the lists are exactly what was added and not deleted (by position: that position; by object: that object)
+        if op.code in (50, 51, 52, 53) and not text.startswith('raise') and text != 'skip':
+            tab_ = it.slots[op.args[0]]
+            exp_ = exp_cols if op.code in (50, 51) else exp_idxs
+            lst_ = exp_.setdefault(id(tab_), [])
+            if op.code in (50, 52):
+                arg_ = it.slots[op.args[1]]
+                if isinstance(arg_, Column if op.code == 50 else Index):
+                    lst_.append(arg_)
+            elif op.args[1].kind == 'int':
+                k_ = op.args[1].val
+                if -len(lst_) <= k_ < len(lst_):
+                    lst_.pop(k_)
+            elif not d23:
+                arg_ = it.slots[op.args[1].val]
+                lst_[:] = [x_ for x_ in lst_ if x_ is not arg_]
+            else:
+                exp_[id(tab_)] = list(tab_.columns if op.code == 51 else tab_.indexes)     # D23 territory: resynchronise
+        for t in [s for s in it.slots if isinstance(s, Table)]:
+            if 'D24' not in taints and 'D23' not in taints:
+                if [id(c) for c in t.columns] != [id(c) for c in exp_cols.get(id(t), [])]:
+                    fail('column list differs from added-minus-deleted (position or object)', '%s: %r' % (op, t.columns), cls)
+                    exp_cols[id(t)] = list(t.columns)
+                if [id(c) for c in t.indexes] != [id(c) for c in exp_idxs.get(id(t), [])]:
+                    fail('index list differs from added-minus-deleted (position or object)', '%s: %r' % (op, t.indexes), cls)
+                    exp_idxs[id(t)] = list(t.indexes)
         for t in [s for s in it.slots if isinstance(s, Table)]:
             for c in t.columns:
                 if c.table is not t:
